@@ -4,7 +4,7 @@ from props.walletfam import WalletProp, H, PUBV
 
 class Prop(WalletProp):
     id = "C16"
-    theorems = ["C16_wif_tag", "C16_address_tags", "C16_version_network", "C16_coin_type", "C16_from_extended_key_network"]
+    theorems = ["C16_wif_tag", "C16_version_network", "C16_coin_type", "C16_address_tags", "C16_from_extended_key_network"]
     rule = ("Both networks x wallets from random seeds: generate() (every address, WIF, account extended key and coin type checked in Coq against the "
             "Spec tags of the wallet's own network), Wasabi export, and watch-only wallets re-imported from each public version prefix (their network "
             "is the prefix's; their addresses equal the full wallet's). Non-trivial = distinct (case, output).")
